@@ -370,6 +370,37 @@ Theorem C06_lattice_end_to_end_3d :
 Proof. intros M. exact (@lattice_end_to_end_3d M). Qed.
 Print Assumptions C06_lattice_end_to_end_3d.
 
+(* ... and from one or two pairs of planes (lattices infinite in the other
+   directions; the FILL array may still have three ranges, the surplus ones
+   one-point ranges) *)
+Theorem C06_lattice_end_to_end_1d_2d :
+  forall (M : Type) (unit_cell : region) (own_mat : M) (leaves : Z -> list (region * M))
+         (dic : Z -> list (@plane R * Z)) (ids : list Z) (cell : @lat_cell R) (bs : bounds) (spec : list Z),
+  lc_fill cell = FSpec bs spec -> bs <> [] -> wf_bounds bs ->
+  Z.of_nat (List.length spec) = size bs -> cell_shape_ok cell ->
+  (forall sa sb, (1 <= List.length bs)%nat -> Forall trivial_range (skipn 1 bs) ->
+     extract_surfaces dic ids = [sa; sb] -> spacing sa sb <> 0%R ->
+     exists a elems, develop_lattice RS dic ids cell = Ok elems /\
+       dot a (outward sa) = spacing sa sb /\ (exists k, a = rescale RS k (outward sa)) /\
+       forall p m, (exists r, In (r, m) (lattice_volumes unit_cell own_mat leaves elems) /\ r p) <->
+                   lattice_owner unit_cell own_mat leaves cell [a] bs spec p m) /\
+  (forall sa sb sc sd, (2 <= List.length bs)%nat -> Forall trivial_range (skipn 2 bs) ->
+     extract_surfaces dic ids = [sa; sb; sc; sd] ->
+     spacing sa sb <> 0%R -> spacing sc sd <> 0%R -> gram2 (outward sa) (outward sc) <> 0%R ->
+     exists a1 a2 elems, develop_lattice RS dic ids cell = Ok elems /\
+       dot a1 (outward sa) = spacing sa sb /\ dot a1 (outward sc) = 0%R /\
+       dot a2 (outward sa) = 0%R /\ dot a2 (outward sc) = spacing sc sd /\
+       (exists x y, a1 = lin2 x y (outward sa) (outward sc)) /\
+       (exists x y, a2 = lin2 x y (outward sa) (outward sc)) /\
+       forall p m, (exists r, In (r, m) (lattice_volumes unit_cell own_mat leaves elems) /\ r p) <->
+                   lattice_owner unit_cell own_mat leaves cell [a1; a2] bs spec p m).
+Proof.
+  intros M unit_cell own_mat leaves dic ids cell bs spec H1 H2 H3 H4 H5. split.
+  - intros. now apply (@lattice_end_to_end_1d M).
+  - intros. now apply (@lattice_end_to_end_2d M).
+Qed.
+Print Assumptions C06_lattice_end_to_end_1d_2d.
+
 (* ---- FILL arrays on the cell card (ParseMCNPCell.parse_fill_kw) -----------------
    tokens in reading order after "(", ")" and "=" have become blanks.
    spells_int t u: t is a spelling of the integer u; param_token t: t starts
